@@ -89,43 +89,52 @@ def mulMatTVec {nr nc : Nat} (mat : Vector α (nr * nc)) (vec : Vector α nr) : 
 
 /-! ### dense Cholesky (engine_util_solve.c) -/
 
+/-- off-diagonal entries of column `j` (`for (i=j+1; i<n; i++) mat[i*n+j] = (mat[i*n+j] - dot(row i, row j, j)) * tmp`) -/
+def cholColumn (n j : Nat) (hj : j < n) (m : Vector α (n * n)) (tmp : α) : Vector α (n * n) :=
+  forRange (j + 1) n (fun i _ hi m =>
+    set2 m i j hi hj
+      ((at2 m i j hi hj - dotFn j (fun k => at2 m i k hi (by omega) * at2 m j k hj (by omega))) * tmp)) m
+
+/-- one iteration (column `j`) of the loop of `mju_cholFactor`; the state is the matrix and the rank -/
+def cholStep (n : Nat) (mindiag : α) (j : Nat) (hj : j < n) (st : Vector α (n * n) × Nat) : Vector α (n * n) × Nat :=
+  let m := st.1
+  -- compute new diagonal
+  let tmp0 := at2 m j j hj hj
+  let tmp1 := if j ≠ 0 then
+      tmp0 - dotFn j (fun k => at2 m j k hj (by omega) * at2 m j k hj (by omega))
+    else tmp0
+  -- correct diagonal values below threshold
+  let deficient : Bool := decide (tmp1 < mindiag)
+  let tmp2 := if deficient then mindiag else tmp1
+  let rank := if deficient then st.2 - 1 else st.2
+  -- save diagonal
+  let m := set2 m j j hj hj (sqrt tmp2)
+  if deficient then
+    -- clear off-diagonals if deficient
+    (forRange (j + 1) n (fun i _ hi m => set2 m i j hi hj (lit 0)) m, rank)
+  else
+    (cholColumn n j hj m (lit 1 / at2 m j j hj hj), rank)
+
 /-- `mju_cholFactor(mat, n, mindiag)`: in-place factorisation, column by column; returns the matrix (factor in
 the lower triangle, the strict upper triangle is left untouched) and the rank. -/
 def cholFactor (n : Nat) (mat : Vector α (n * n)) (mindiag : α) : Vector α (n * n) × Nat :=
-  Nat.fold n (fun j hj (st : Vector α (n * n) × Nat) =>
-    let m := st.1
-    -- compute new diagonal
-    let tmp0 := at2 m j j hj hj
-    let tmp1 := if j ≠ 0 then
-        tmp0 - dotFn j (fun k => at2 m j k hj (by omega) * at2 m j k hj (by omega))
-      else tmp0
-    -- correct diagonal values below threshold
-    let deficient : Bool := decide (tmp1 < mindiag)
-    let tmp2 := if deficient then mindiag else tmp1
-    let rank := if deficient then st.2 - 1 else st.2
-    -- save diagonal
-    let m := set2 m j j hj hj (sqrt tmp2)
-    if deficient then
-      -- clear off-diagonals if deficient
-      (forRange (j + 1) n (fun i _ hi m => set2 m i j hi hj (lit 0)) m, rank)
-    else
-      let tmp := lit 1 / at2 m j j hj hj
-      (forRange (j + 1) n (fun i _ hi m =>
-          set2 m i j hi hj
-            ((at2 m i j hi hj - dotFn j (fun k => at2 m i k hi (by omega) * at2 m j k hj (by omega))) * tmp)) m,
-       rank))
-    (mat, n)
+  Nat.fold n (fun j hj st => cholStep n mindiag j hj st) (mat, n)
+
+/-- forward substitution of `mju_cholSolve`: solve `L*res = vec` -/
+def cholFwd (n : Nat) (mat : Vector α (n * n)) (vec : Vector α n) : Vector α n :=
+  Nat.fold n (fun i hi (res : Vector α n) =>
+    let x := if i ≠ 0 then res[i] - dotFn i (fun k => at2 mat i k hi (by omega) * res[k.1]'(by omega)) else res[i]
+    res.set i (x / at2 mat i i hi hi)) vec
+
+/-- backward substitution of `mju_cholSolve`: solve `L'*res = res` -/
+def cholBwd (n : Nat) (mat : Vector α (n * n)) (y : Vector α n) : Vector α n :=
+  forRangeRev 0 n (fun i _ hi (res : Vector α n) =>
+    let x := forRange (i + 1) n (fun j _ hj acc => acc - at2 mat j i hj hi * res[j]) res[i]
+    res.set i (x / at2 mat i i hi hi)) y
 
 /-- `mju_cholSolve(res, mat, vec, n)`: forward then backward substitution, in place in `res`. -/
 def cholSolve (n : Nat) (mat : Vector α (n * n)) (vec : Vector α n) : Vector α n :=
-  -- forward substitution: solve L*res = vec
-  let fwd := Nat.fold n (fun i hi (res : Vector α n) =>
-    let x := if i ≠ 0 then res[i] - dotFn i (fun k => at2 mat i k hi (by omega) * res[k.1]'(by omega)) else res[i]
-    res.set i (x / at2 mat i i hi hi)) vec
-  -- backward substitution: solve L'*res = res
-  forRangeRev 0 n (fun i _ hi (res : Vector α n) =>
-    let x := forRange (i + 1) n (fun j _ hj acc => acc - at2 mat j i hj hi * res[j]) res[i]
-    res.set i (x / at2 mat i i hi hi)) fwd
+  cholBwd n mat (cholFwd n mat vec)
 
 /-- `mju_cholUpdate(mat, x, n, flg_plus)`: rank-one update `L*L' ± x*x'`; returns the matrix, the overwritten
 `x` and the rank.  `mjMINVAL = 1e-15`. -/
@@ -207,9 +216,15 @@ def dense2Band (ntotal nband ndense : Nat) (hb : 1 ≤ nband) (hd : ndense ≤ n
       (by have := band_dense_row_le (nband := nband) hd h1 h2; omega)
       (by have := idx_lt (nc := ntotal) h2 h2; omega)) res
 
-/-- `mju_band2Dense(res, mat, ntotal, nband, ndense, flg_sym)` -/
-def band2Dense (ntotal nband ndense : Nat) (hb : 1 ≤ nband) (hd : ndense ≤ ntotal)
-    (mat : Vector α (bandSize ntotal nband ndense)) (sym : Bool) : Vector α (ntotal * ntotal) :=
+/-- `for (i) for (j=i+1; j<n; j++) res[i*n+j] = res[j*n+i]` (the "make symmetric" loop of `mju_band2Dense`
+and `mju_sqrMatTD`) -/
+def mirrorLower {n : Nat} (res : Vector α (n * n)) : Vector α (n * n) :=
+  Nat.fold n (fun i hi (res : Vector α (n * n)) =>
+    forRange (i + 1) n (fun j _ hj res => set2 res i j hi hj (at2 res j i hj hi)) res) res
+
+/-- `mju_band2Dense(res, mat, ntotal, nband, ndense, 0)`: clear, then copy the band rows and the dense rows -/
+def band2DenseLower (ntotal nband ndense : Nat) (hb : 1 ≤ nband) (hd : ndense ≤ ntotal)
+    (mat : Vector α (bandSize ntotal nband ndense)) : Vector α (ntotal * ntotal) :=
   -- clear all
   let res : Vector α (ntotal * ntotal) := Vector.replicate (ntotal * ntotal) (lit 0)
   -- sparse part
@@ -222,15 +237,17 @@ def band2Dense (ntotal nband ndense : Nat) (hb : 1 ≤ nband) (hd : ndense ≤ n
           have h2 : nband ≤ (i + 1) * nband := Nat.le_mul_of_pos_left _ (Nat.succ_pos i)
           unfold bandSize; omega)) res
   -- dense part
-  let res := forRange (ntotal - ndense) ntotal (fun i h1 h2 (res : Vector α (ntotal * ntotal)) =>
+  forRange (ntotal - ndense) ntotal (fun i h1 h2 (res : Vector α (ntotal * ntotal)) =>
     copyInto res (i * ntotal) mat ((ntotal - ndense) * nband + (i - (ntotal - ndense)) * ntotal) (i + 1)
       (by have := idx_lt (nc := ntotal) h2 h2; omega)
       (by have := band_dense_row_le (nband := nband) hd h1 h2; omega)) res
+
+/-- `mju_band2Dense(res, mat, ntotal, nband, ndense, flg_sym)` -/
+def band2Dense (ntotal nband ndense : Nat) (hb : 1 ≤ nband) (hd : ndense ≤ ntotal)
+    (mat : Vector α (bandSize ntotal nband ndense)) (sym : Bool) : Vector α (ntotal * ntotal) :=
+  let res := band2DenseLower ntotal nband ndense hb hd mat
   -- make symmetric
-  if sym then
-    Nat.fold ntotal (fun i hi (res : Vector α (ntotal * ntotal)) =>
-      forRange (i + 1) ntotal (fun j _ hj res => set2 res i j hi hj (at2 res j i hj hi)) res) res
-  else res
+  if sym then mirrorLower res else res
 
 /-! ### dense LU with partial pivoting (engine_util_solve.c) -/
 
@@ -302,8 +319,7 @@ def sqrMatTD {nr nc : Nat} (mat : Vector α (nr * nc)) (diag : Vector α nr) : V
         else addToSclSlice res (i * nc) mat (j * nc) (i + 1) (tmp * diag[j])
           (by have := idx_lt (nc := nc) hi hi; omega) (by have := idx_lt (nc := nc) hj hi; omega)) res) res
   -- make symmetric
-  Nat.fold nc (fun i hi (res : Vector α (nc * nc)) =>
-    forRange (i + 1) nc (fun j _ hj res => set2 res i j hi hj (at2 res j i hj hi)) res) res
+  mirrorLower res
 
 /-- `mju_sqrMatTD(res, mat, NULL, nr, nc)`: `res = M' * M` (different loop nest in the C code) -/
 def sqrMatT {nr nc : Nat} (mat : Vector α (nr * nc)) : Vector α (nc * nc) :=
@@ -314,7 +330,6 @@ def sqrMatT {nr nc : Nat} (mat : Vector α (nr * nc)) : Vector α (nc * nc) :=
       if beq tmp (lit 0) then res
       else addToSclSlice res (i * nc) mat (j * nc) (i + 1) tmp
         (by have := idx_lt (nc := nc) hi hi; omega) (by have := idx_lt (nc := nc) hj hi; omega)) res) res
-  Nat.fold nc (fun i hi (res : Vector α (nc * nc)) =>
-    forRange (i + 1) nc (fun j _ hj res => set2 res i j hi hj (at2 res j i hj hi)) res) res
+  mirrorLower res
 
 end MjProof.LinAlg
